@@ -112,6 +112,17 @@ def depends_on_sign(term, P):
     return False
 
 
+LOSSY_DECIMAL_METHODS = {
+    # methods of decimal.Decimal that can drop or alter digits of the
+    # operand (trusted classification of library behaviour)
+    'shift', 'rotate', 'quantize', 'to_integral', 'to_integral_value',
+    'to_integral_exact', 'remainder_near', 'logical_and', 'logical_or',
+    'logical_xor', 'logical_invert', 'next_minus', 'next_plus',
+    'next_toward', 'sqrt', 'ln', 'log10', 'exp', 'fma', '__round__',
+    '__floor__', '__ceil__', '__trunc__',
+}
+
+
 def decimal_sign_rule(ctx):
     """-> [(construct, ok, why)] for the decimal encoder's value field."""
     prog = ctx.prog
@@ -125,6 +136,15 @@ def decimal_sign_rule(ctx):
         if len(flds) != 2:
             continue
         v = flds[1]
+        lossy = sorted({t.args[1] for t in T.subterms(v.arg)
+                        if t.op == 'method' and
+                        t.args[1] in LOSSY_DECIMAL_METHODS})
+        if lossy:
+            out.append(('encode.decimal path %d scaling' % (i + 1), False,
+                        'the unscaled value is computed with Decimal.%s, '
+                        'which can drop digits of the operand (exact: '
+                        'scaleb, multiplication by a power of ten)' %
+                        '/'.join(lossy)))
         okk = depends_on_sign(v.arg, E.P)
         out.append(('encode.decimal path %d unscaled value' % (i + 1), okk,
                     'operand %s %s' % (T.show(v.arg)[:100],
